@@ -58,9 +58,10 @@ type Case struct {
 	Allowed  bool             `json:"allowed"`
 	Payload  int              `json:"payload"`
 	Seg      string           `json:"seg"`
-	Split    int              `json:"split"`          // header split offset (-1 none)
-	WireNeed int              `json:"wire_need"`      // extra scripted matcher on the wire (forces prefetch)
-	Flat     bool             `json:"flat,omitempty"` // address route and a data-hungry route in the same list as the proxy_protocol route
+	Split    int              `json:"split"`            // header split offset (-1 none)
+	WireNeed int              `json:"wire_need"`        // extra scripted matcher on the wire (forces prefetch)
+	Silent   bool             `json:"silent,omitempty"` // sender case: the client stays silent until the upstream has the header
+	Flat     bool             `json:"flat,omitempty"`   // address route and a data-hungry route in the same list as the proxy_protocol route
 	Version  string           `json:"version,omitempty"`
 }
 
@@ -437,6 +438,24 @@ func sendCase(c *fw.Ctx, r *rand.Rand, i int, up *drive.Upstream) {
 	if len(segs) > 400 {
 		segs = drive.Segmentation("random", len(wire), r)
 	}
+	report := func(kind, what string) {
+		c.Violation(fmt.Sprintf("C12 %s %s [%s]", cs.Kind, kind, cs.Version), what, map[string]any{"case": cs})
+	}
+	if !chain && r.Intn(4) == 0 {
+		// a client that says nothing at first (the upstream may be the one that speaks first): the header has to
+		// reach the upstream all the same, before a single client byte was sent
+		cs.Silent = true
+		got := false
+		for dl := time.Now().Add(5 * time.Second); time.Now().Before(dl) && !got; time.Sleep(time.Millisecond) {
+			if cc := up.Conns(); int64(len(cc)) > before {
+				b := cc[len(cc)-1].Received()
+				got = (cs.Version == "v1" && bytes.Contains(b, []byte("\r\n"))) || (cs.Version == "v2" && len(b) >= 16)
+			}
+		}
+		if !got {
+			report("header-withheld-from-a-silent-client's-upstream", "5 s after a client connected and stayed silent the upstream has not received the PROXY header: it is held back until the client sends")
+		}
+	}
 	go func() {
 		_ = drive.WriteSegments(client, wire, segs, 4, 30*time.Microsecond)
 		_ = client.CloseWrite()
@@ -445,9 +464,6 @@ func sendCase(c *fw.Ctx, r *rand.Rand, i int, up *drive.Upstream) {
 	drive.ReadAll(client)
 	client.WaitPeerClosed(30 * time.Second)
 	_ = client.Close()
-	report := func(kind, what string) {
-		c.Violation(fmt.Sprintf("C12 %s %s [%s]", cs.Kind, kind, cs.Version), what, map[string]any{"case": cs})
-	}
 	// this process runs its cases sequentially, so the connection(s) after `before` are ours
 	deadline := time.Now().Add(10 * time.Second)
 	for up.Count() == before && time.Now().Before(deadline) {
